@@ -540,7 +540,7 @@ def run(ctx):
                 as_key = (isinstance(par, ast.DictComp) and par.key is call) or \
                     (isinstance(par, ast.Dict) and any(k is call for k in par.keys)) or \
                     (isinstance(par, ast.Subscript) and par.slice is call) or \
-                    (isinstance(par, ast.Call) and last_attr(par) in ('get', 'pop', 'setdefault')
+                    (isinstance(par, ast.Call) and last_attr(par) in ('get', 'pop', 'setdefault', 'add', 'discard')
                      and par.args and par.args[0] is call) or \
                     (isinstance(par, ast.Compare) and isinstance(par.ops[0], (ast.In, ast.NotIn, ast.Eq,
                                                                                 ast.NotEq, ast.Is, ast.IsNot)))
